@@ -97,12 +97,7 @@ def read_corpus(rel):
     return f.read()
 
 
-def _scc(rng):
-  # half the SCC files follow the caption protocols (the encoder and channel of check C08), half are odd sequences
-  return pscc.protocol_file(rng) if rng.random() < 0.5 else ptext.scc_simple(rng)
-
-
-PRODUCERS = {"srt": ptext.srt, "vtt": ptext.vtt, "scc": _scc, "stl": pstl.stl, "ttml": pttml.ttml}
+PRODUCERS = {"srt": ptext.srt, "vtt": ptext.vtt, "scc": pscc.scc_mixed, "stl": pstl.stl, "ttml": pttml.ttml}
 
 
 # ------------------------------------------------------------------ configurations
